@@ -150,10 +150,16 @@ def main(argv=None):
         e["status"] = "proved" if all(s == "proved" for s in sts) else ("refuted" if "refuted" in sts else "unknown")
     vacuous = [r for r in results if not r["error"] and (r["paths"] == 0 or r["paths"] == r["vacuous_paths"] or not r["obligations"])]
     known = [k for k in load_known() if k.get("property") == prop and k.get("status", "open") == "open"]
+    # obligation names of safety conditions carry the source line of the call site; an edit elsewhere in the file
+    # moves it, so listed findings are matched with the line number masked (scenario, configuration, kind of
+    # obligation, file and condition still have to agree)
+    import re as _re
+
+    mask = lambda n: _re.sub(r"\.py:\d+", ".py:#", n)
     known_names = {}
     for k in known:
         for n in k["obligations"]:
-            known_names[n] = k
+            known_names[mask(n)] = k
     violations, known_hit, undecided = [], {}, []
     for e in obs.values():
         if e["status"] == "proved":
@@ -161,8 +167,8 @@ def main(argv=None):
         if e["status"] == "unknown":
             undecided.append(e)
             continue
-        if e["name"] in known_names:
-            known_hit.setdefault(known_names[e["name"]]["id"], []).append(e)
+        if mask(e["name"]) in known_names:
+            known_hit.setdefault(known_names[mask(e["name"])]["id"], []).append(e)
         else:
             violations.append(e)
     # ---- report
